@@ -273,3 +273,14 @@ Theorem C14_literal_path :
     path_omit_generics r s id = Ok p -> p = TypePath.rel_path (s_root s :: t_path X).
 Proof. exact eligible_literal_path. Qed.
 Print Assumptions C14_literal_path.
+
+(** without any consistency hypothesis when no two item-eligible entries share a path *)
+Theorem C14_conforms_unique_paths :
+  forall (r : registry) (s : settings) (teq : N -> N -> result bool) (m : items),
+    generate r s teq = Ok m ->
+    (forall (id : N) (X : ty) (id' : N) (X' : ty), In (id, X) r -> In (id', X') r ->
+       item_eligible s X = true -> item_eligible s X' = true -> t_path X = t_path X' -> X = X') ->
+    forall (id : N) (ws : words) (ts : tokens),
+      example_rust r s id ws = XOk ts -> conforms r s m id ts [].
+Proof. exact example_conforms_unique. Qed.
+Print Assumptions C14_conforms_unique_paths.
